@@ -404,7 +404,7 @@ struct Value {
             fprintf(stderr, "cannot base58-decode non-string value\n");
             return;
         }
-        if (!DecodeBase58(str, data, 200)) {
+        if (!DecodeBase58(str, data, std::numeric_limits<int>::max())) {
             fprintf(stderr, "decode failed\n");
         }
         type = T_DATA;
@@ -419,7 +419,7 @@ struct Value {
             fprintf(stderr, "cannot base58-decode non-string value\n");
             return;
         }
-        if (!DecodeBase58Check(str, data, 200)) {
+        if (!DecodeBase58Check(str, data, std::numeric_limits<int>::max())) {
             fprintf(stderr, "decode failed\n");
         }
         type = T_DATA;
